@@ -601,7 +601,7 @@ func runC13(c *Case, out func(string)) {
 			if err != nil {
 				o.fail("", "replica scan: "+err.Error())
 			} else {
-				want := c13RefState(o.L, o.n, true)
+				want := c13RefState(o.L, o.n, false)
 				for gi, ge := range pends {
 					if ge == o.n && !o.midGroup(o.n) {
 						want = pstates[gi] // the real primary's data after the same operations
